@@ -227,6 +227,12 @@ func (p *recPolicy) Retry(attempt int, resp *http.Response, err error) (time.Dur
 	if perr != nil {
 		pc.Err = perr.Error()
 	}
+	if d > rec.maxWait && perr == nil {
+		// out of bounds (recorded in Real and judged later); do not really
+		// sleep that long
+		d = rec.maxWait
+		pc.Duration = d
+	}
 	if d >= 0 && perr == nil && rec.cancelArmed {
 		switch rec.cancelMode {
 		case "attempt":
